@@ -4,7 +4,7 @@
 From Coq Require Import Reals ZArith QArith Qreals List Lra Lia.
 From Coquelicot Require Import Coquelicot.
 From ADV Require Import Base.Fl Base.Num C01.Model C01.ModelR C01.Spec C01.ProofsComb C01.ProofsCoef C01.ProofsJet C01.ProofsRefuted
-     C01.ProofsStore C01.ProofsOps C01.ProofsSound C01.ProofsChain2 C01.ProofsProg C01.ModelVariants C01.ProofsAlias.
+     C01.ProofsStore C01.ProofsOps C01.ProofsSound C01.ProofsChain2 C01.ProofsProg C01.ModelVariants C01.ProofsAlias C01.ProofsSpecial C01.ProofsRed C01.ProofsSmooth C01.ProofsDag.
 Import ListNotations.
 Open Scope R_scope.
 
@@ -378,13 +378,127 @@ Theorem step_dyadic_any_receiver : forall S n o op c a b (s : St) A B,
     rorder (s' c) = Nat.max (rorder (rd s a)) (rorder (rd s b)) /\ rn (s' c) = Nat.max (rn (rd s a)) (rn (rd s b)).
 Proof. exact rep_dy_any. Qed.
 
+(* (C) reductions for a receiver of ANY admissible shape — reused (the computation's N and order, any stale
+   content) or FRESH (order 0: reallocated by AllocForTwo in the first r.Add(r, x)); elements are registers
+   other than the accumulator / temporary.  shp n o r: (order, N) = (o, n) or (0, 0). *)
+Theorem mtrace_program_any_receiver : forall S n o r diag Js (s : St),
+  wf (s r) -> shp n o (s r) ->
+  Forall2 (fun x J => rep S n o (rd s x) J /\ not_reg x r) diag Js ->
+  exists s', do_mtrace (FlR S) idR r diag s = Ok s' /\ frame r s s' /\ rep S n o (s' r) (fold_left (jadd S) Js (jconst 0)).
+Proof. exact mtrace_any. Qed.
+Theorem vmean_program_any_receiver : forall S n o r xs Js (s : St),
+  wf (s r) -> shp n o (s r) -> xs <> [] ->
+  Forall2 (fun x J => rep S n o (rd s x) J /\ not_reg x r) xs Js ->
+  exists s', do_vmean (FlR S) idR r xs s = Ok s' /\ frame r s s' /\
+    exists M, rep S n o (s' r) M /\ let T := fold_left (jadd S) Js (jconst 0) in let N := INR (length xs) in
+      jv M = jv T / N /\ ((1 <= o)%nat -> forall i, (i < n)%nat -> jg M i = jg T i / N) /\
+      ((2 <= o)%nat -> forall i j, (i < n)%nat -> (j < n)%nat -> jh M i j = jh T i j / N).
+Proof. exact vmean_any. Qed.
+Example fresh_accumulator_is_admissible : forall n o, shp n o (mkReg K64 0 0 0 [] []) /\ wf (mkReg K64 0 0 0 [] []).
+Proof. intros n o. split; [right; split; reflexivity|split; cbn; intros; lia]. Qed.
+(* VdotV: sum_i a_i b_i (jmul = the Mul entry of the table: value a b, gradient a' b + b' a, Hessian with the cross terms) *)
+Theorem vdotv_program : forall S n o r t its (s : St),
+  t <> r -> wf (s r) -> shp n o (s r) ->
+  List.Forall (fun i => elt S n o r t (it_a i) (it_A i) s /\ elt S n o r t (it_b i) (it_B i) s) its ->
+  exists s', do_vdotv (FlR S) idR r (map it_a its) (map it_b its) t s = Ok s' /\ frame2 r t s s' /\
+    rep S n o (s' r) (fold_left (fun acc i => jadd S acc (jmul S (it_A i) (it_B i))) its (jconst 0)).
+Proof. exact vdotv_jet. Qed.
+Theorem jmul_is_the_product_rule : forall S A B,
+  jv (jmul S A B) = jv A * jv B /\ (forall i, jg (jmul S A B) i = jg A i * jv B + jg B i * jv A) /\
+  (forall i j, jh (jmul S A B) i j = jh A i j * jv B + jh B i j * jv A + jg A i * jg B j + jg B i * jg A j).
+Proof. exact jmul_slots. Qed.
+(* Vnorm = sqrt (sum of squares), on a non-zero vector *)
+Theorem vnorm_program : forall S n o r t its (s : St),
+  t <> r -> wf (s r) -> shp n o (s r) -> List.Forall (fun i => elt S n o r t (fst i) (snd i) s) its ->
+  let T := fold_left (fun acc i => jadd S acc (sq_it S i)) its (jconst 0) in
+  0 < jv T ->
+  exists s', do_vnorm (FlR S) idR r (map fst its) t s = Ok s' /\ frame2 r t s s' /\
+    rep S n o (s' r) (lift1 sqrt (fun x => / (2 * sqrt x)) (fun x => - / (4 * x * sqrt x)) T).
+Proof. exact vnorm_jet. Qed.
+(* Mnorm AS CODED: the sum of squares, no square root (known finding F-MNORM-SQRT, property C02) *)
+Theorem mnorm_program_as_coded : forall S n o r t x0 J0 its (s : St),
+  t <> r -> wf (s r) -> elt S n o r t x0 J0 s -> List.Forall (fun i => elt S n o r t (fst i) (snd i) s) its ->
+  exists s', do_mnorm (FlR S) idR r (x0 :: map fst its) t s = Ok s' /\ frame2 r t s s' /\
+    rep S n o (s' r) (fold_left (fun acc i => jadd S acc (sq_it S i)) its (jsq S J0)).
+Proof. exact mnorm_jet. Qed.
+Theorem jsq_is_the_square : forall S A, 0 < jv A ->
+  jv (jsq S A) = jv A * jv A /\ (forall i, jg (jsq S A) i = 2 * jv A * jg A i) /\
+  (forall i j, jh (jsq S A) i j = 2 * jg A i * jg A j + 2 * jv A * jh A i j).
+Proof. exact jsq_slots. Qed.
+(* SmoothMax: (sum_i x_i exp(alpha x_i)) / (sum_i exp(alpha x_i)); two accumulators and a scratch register *)
+Theorem smoothmax_program : forall S n o r t0 t1 alpha its (s : St),
+  r <> t0 -> r <> t1 -> t0 <> t1 -> wf (s r) -> wf (s t0) -> wf (s t1) -> shp n o (s r) -> shp n o (s t1) ->
+  List.Forall (fun i => elt3 S n o r t0 t1 (fst i) (snd i) s) its ->
+  exists s', do_smoothmax (FlR S) idR r (map fst its) alpha t0 t1 s = Ok s' /\ frame3 r t0 t1 s s' /\
+    rep S n o (s' r) (jdiv S (fold_left (fun acc i => jadd S acc (jmul S (jw S alpha (snd i)) (snd i))) its (jconst 0))
+                             (fold_left (fun acc i => jadd S acc (jw S alpha (snd i))) its (jconst 0))).
+Proof. exact smoothmax_jet. Qed.
+
+(* (D) ad_sound's program class extended: expression DAGs (XLet / XRef: a sub-result computed once, read by several
+   parents) and composite nodes (Logistic, Sigmoid, Sqrt, Abs off 0, Min, Max, LogAdd; Pow with a variable exponent
+   is XDy OPowV).  The compiled program leaves the jet [xsem env e x] in its result operand... *)
+Theorem dag_program_computes_xsem : forall S n o x e cenv env nx (s : St),
+  xwfe n (length env) e -> xinv S n o x cenv env nx s -> xdomc S env e x -> xres S n o env x e cenv nx s.
+Proof. exact xcompile_sound. Qed.
+Theorem dag_ad_run : forall S n o e x (s : St),
+  (1 <= o)%nat -> xwfe n 0 e -> xdomc S [] e x ->
+  (forall k, (k < n)%nat -> rorder (s k) = 0%nat /\ rval (s k) = x k) -> (forall q, (n <= q)%nat -> wf (s q)) ->
+  exists s', run (FlR S) idR (vars_prog n o ++ fst (fst (xcompile [] e n))) s = Ok s' /\
+    let r := rd s' (snd (fst (xcompile [] e n))) in
+    rval r = jv (xsem S [] e x) /\
+    (forall i, (i < n)%nat -> gd (FlR S) r i = jg (xsem S [] e x) i) /\
+    ((2 <= o)%nat -> forall i j, (i < n)%nat -> (j < n)%nat ->
+        gh (FlR S) r i j = jh (xsem S [] e x) i j /\ gh (FlR S) r i j = gh (FlR S) r j i).
+Proof. exact xad_run. Qed.
+(* ... sharing does not change the jet: the DAG and the tree it unfolds to have the same jet ... *)
+Theorem sharing_preserves_the_jet : forall S e x, xsem S [] e x = xsem S [] (unlet [] e) x.
+Proof. exact xsem_closed_unlet. Qed.
+(* ... and for let-free expressions over the table operations, Logistic, Sigmoid and Sqrt the jet is value / first /
+   second partial derivatives of the denoted function *)
+Theorem dag_jets_are_derivatives : forall S e x, xdom S e x ->
+  forall i, partial (xden S e) i x (jg (xsem S [] e x) i) /\
+            forall j, partial (fun y => jg (xsem S [] e y) i) j x (jh (xsem S [] e x) i j).
+Proof. exact xD_correct. Qed.
+Definition ex_dag : xexpr :=     (* let u = x0 * x1 in logistic(u) * sqrt(u) + u : u is read three times *)
+  XLet (XDy OMul (XVar 0) (XVar 1)) (XDy OAdd (XDy OMul (XLogistic (XRef 0)) (XSqrt (XRef 0))) (XRef 0)).
+Example dag_hyps_nontrivial : xwfe 2 0 ex_dag /\ xdomc Sp0 [] ex_dag (fun k => match k with O => 2 | _ => 3 end).
+Proof.
+  split; [cbn; repeat split; lia|]. cbn [ex_dag xdomc xsem app nth]. repeat split.
+  cbn [jv jdy d_v0 jvar FlR fmul]. lra.
+Qed.
+
+(* (E) special-function coefficients relative to the defining relations (hypotheses of the statement, no axioms) *)
+Theorem logerfc_coefficients : forall S,
+  (forall x, is_derive (sErfc S) x (- (2 / sqrt PI * exp (- (x * x))))) -> (forall x, 0 < sErfc S x) ->
+  (forall x, sLogErfc S x = ln (sErfc S x)) ->
+  forall x, m_ok S OLogErfc x /\
+            m_f1 (FlR S) OLogErfc x = - 2 * exp (- (x * x)) / (sqrt PI * sErfc S x) /\
+            m_f2 (FlR S) OLogErfc x = - 2 * x * m_f1 (FlR S) OLogErfc x - m_f1 (FlR S) OLogErfc x * m_f1 (FlR S) OLogErfc x.
+Proof.
+  intros S H1 H2 H3 x. split; [apply logerfc_ok; auto|]. split; [apply logerfc_f1_closed; auto|apply logerfc_f2_overflow_free; auto].
+Qed.
+Theorem mlgamma_coefficients : forall S,
+  (forall x, 0 < x -> is_derive (sLgamma S) x (sDigamma S x)) -> (forall x, 0 < x -> is_derive (sDigamma S) x (sTrigamma S x)) ->
+  (forall x k, sMlgamma S x (Z.of_nat k) = INR k * (INR k - 1) / 4 * ln PI + sumk (FlR S) (sLgamma S) x k) ->
+  forall k x, (forall j, (1 <= j <= k)%nat -> 0 < x + IZR (1 - Z.of_nat j) / 2) -> m_ok S (OMlgamma k) x.
+Proof. intros S H1 H2 H3 k x. apply mlgamma_ok; auto. Qed.
+Theorem gammap_coefficients : forall S a x,
+  is_derive (sGammaP S a) x (sGammaPd1 S a x) -> is_derive (sGammaPd1 S a) x (sGammaPd2 S a x) -> m_ok S (OGammaP a) x.
+Proof. exact gammap_ok. Qed.
+Theorem besseli_coefficients : forall S,
+  (forall v x, 0 < x -> is_derive (sBesselI S v) x (sBesselI S (v - 1) x - v / x * sBesselI S v x)) ->
+  (forall v x, 0 < x -> is_derive (sBesselI S v) x ((sBesselI S (v - 1) x + sBesselI S (v + 1) x) / 2)) ->
+  forall v x, 0 < x -> m_ok S (OBesselI v) x.
+Proof. intros S H1 H2 v x. apply besseli_ok; auto. Qed.
+
 (* Not proved (stated for the record):
-   composite_rest_partial — SmoothMax, LogSmoothMax, VdotV, Vnorm, Mnorm have no Coq statement (their loops are
-     accumulate + one Mul / Pow step per element: same pattern as mtrace_program); Mtrace / Vmean are proved for an
-     accumulator that already has the computation's N and order (a reused register) — a FRESH receiver (order 0) is
-     reallocated by AllocForTwo inside r.Add(r, x), a case dyadic_jet_algebra excludes (alloc_keeps; F-ALLOC of C08).
-   ad_sound covers expression TREES compiled to SSA register programs over IMon / IDy (all table operations, Pow with
-     constant exponent as OPowC and with a magic exponent as OPowV); composite instructions as tree nodes and DAG
-     sharing of a sub-result by two parents (covered by the frame clauses of compiled_program_computes_sem only
-     informally) are not part of the expr type.
-   LogErfc / Mlgamma / GammaP / Bessel coefficient lemmas: correspondence and certificates only. *)
+   logsmoothmax_partial — LogSmoothMax starts its two accumulators at -Inf and the first LogAdd of each is the Set
+     short cut; the real carrier has no infinities (coq/C02 states the VALUE over option R), so there is no statement
+     over R here: bit-exact replay, certificates and the hunt cover it; the short cuts themselves are
+     logadd_inf_is_set / logsub_neg_inf_is_set (every carrier).
+   dag_jets_are_derivatives_partial — for Abs, Min, Max, LogAdd nodes the program is proved to compute the jet of the
+     named closed form (lift1 Rabs .., the selected operand, logadd_jet: dag_program_computes_xsem) but the statement
+     that this jet is the derivative of the denoted function (off the kink / off ties) is only proved for the
+     let-free fragment over table operations, Logistic, Sigmoid, Sqrt.
+   LogBesselI coefficients: correspondence and certificates only.
+   Log1pExp as a DAG node: its branch jets are log1pexp_program. *)
